@@ -11,7 +11,6 @@ From YP Require Import Base.Str Engine.Resolve Engine.ResolveProofs Engine.Resol
 Definition sctx := str -> list def.
 Definition sdb := (str * nat) -> list fact.
 
-Definition is_fail (st : stmt) : bool := match st with SFail => true | SDef _ _ => false end.
 Definition load_fails (sc : script) : bool := s_broken sc || existsb is_fail (s_stmts sc).
 
 (* the property text, one operation at a time *)
@@ -47,17 +46,24 @@ Definition abs_ok (e : engine) (sp : sctx * sdb) : Prop :=
   (forall k, db_get (e_db e) k = snd sp k) /\
   (forall k, ctx_get (e_ctx e) k <> Some []).
 
-Lemma load_fails_iff c sc ow : load_fails sc = true <-> load c sc ow = None.
+(* the operations the property text speaks about: what is registered / loaded are functions
+   (scripts made of definitions and raising statements, broken text included) *)
+Definition plain_op (o : op) : bool :=
+  match o with
+  | ORegister _ _ d => match d_const d with None => true | Some _ => false end
+  | OLoad sc _ => plain_script sc
+  | _ => true
+  end.
+
+Lemma load_fails_iff c sc ow : plain_script sc = true -> (load_fails sc = true <-> load c sc ow = None).
 Proof.
-  unfold load_fails. split.
+  intros Hp. unfold load_fails. split.
   - intros H. apply load_fail_atomic. apply orb_true_iff in H. destruct H as [H|H]; [left; exact H|right].
-    apply existsb_exists in H. destruct H as [st [Hin Hf]]. destruct st; [discriminate | exact Hin].
+    apply existsb_exists in H. destruct H as [st [Hin Hf]]. destruct st; try discriminate. exact Hin.
   - intros H. destruct (s_broken sc) eqn:Eb; [reflexivity|]. simpl.
     destruct (existsb is_fail (s_stmts sc)) eqn:Ef; [reflexivity|]. exfalso.
     assert (Hex : exists c', load c sc ow = Some c').
-    { apply load_ok_iff. split; [exact Eb|]. intros Hin.
-      assert (existsb is_fail (s_stmts sc) = true) as Ht; [|congruence].
-      apply existsb_exists. exists SFail. split; [exact Hin | reflexivity]. }
+    { apply load_ok_iff. split; [exact Eb|]. rewrite (exec_ok_plain _ Hp), Ef. reflexivity. }
     destruct Hex as [c' Hc']. congruence.
 Qed.
 
@@ -73,11 +79,16 @@ Proof.
 Qed.
 
 Lemma step_simulation fuel o st sp :
+  plain_op o = true ->
   abs_ok (st_eng st) sp -> abs_ok (st_eng (snd (do_op fuel o st))) (spec_step o sp).
 Proof.
-  intros [Hc [Hd Hne]]. destruct sp as [sc sd]. simpl in Hc, Hd.
+  intros Hp [Hc [Hd Hne]]. destruct sp as [sc sd]. simpl in Hc, Hd.
   destruct o as [name sty d | s ow | name vals app | | name n | i | i].
   - (* register *)
+    cbn [plain_op] in Hp.
+    assert (Hrr : register_raises sty d = false).
+    { unfold register_raises. destruct sty; try reflexivity. destruct (d_const d); [discriminate | reflexivity]. }
+    cbn [do_op]. rewrite Hrr.
     simpl. unfold abs_ok. simpl. split; [|split].
     + intros k. unfold chain_of. rewrite register_get.
       destruct (str_eqb k (mkkey name (reg_arity sty d))); [reflexivity | apply Hc].
@@ -85,21 +96,25 @@ Proof.
     + intros k. rewrite register_get.
       destruct (str_eqb k (mkkey name (reg_arity sty d))); [discriminate | apply Hne].
   - (* load *)
+    cbn [plain_op] in Hp.
     cbn [spec_step do_op]. destruct (load (e_ctx (st_eng st)) s ow) as [c'|] eqn:El.
     + assert (Hf : load_fails s = false).
       { destruct (load_fails s) eqn:E; [|reflexivity].
-        apply (load_fails_iff (e_ctx (st_eng st)) s ow) in E. congruence. }
+        apply (load_fails_iff (e_ctx (st_eng st)) s ow Hp) in E. congruence. }
       rewrite Hf. unfold abs_ok. simpl. split; [|split].
       * intros k. unfold chain_of. rewrite (load_get _ _ _ _ k El).
+        destruct (plain_last_eff (s_stmts s) k Hp) as [He Hfun]. rewrite He.
         destruct (last_def (s_stmts s) k) as [d|]; [|apply Hc].
-        destruct ow; [reflexivity|]. rewrite <- Hc. unfold chain_of.
-        destruct (ctx_get (e_ctx (st_eng st)) k); reflexivity.
+        rewrite (same_value_fun _ d (Hfun d eq_refl)). cbn [members].
+        destruct ow; [reflexivity|]. rewrite <- Hc. reflexivity.
       * exact Hd.
       * intros k. rewrite (load_get _ _ _ _ k El).
+        destruct (plain_last_eff (s_stmts s) k Hp) as [He Hfun]. rewrite He.
         destruct (last_def (s_stmts s) k) as [d|]; [|apply Hne].
-        destruct ow; [discriminate|].
+        rewrite (same_value_fun _ d (Hfun d eq_refl)). cbn [members].
+        destruct ow; [discriminate|]. unfold old_members.
         destruct (ctx_get (e_ctx (st_eng st)) k) as [[|x old]|]; discriminate.
-    + assert (Hf : load_fails s = true) by (apply (load_fails_iff (e_ctx (st_eng st)) s ow); exact El).
+    + assert (Hf : load_fails s = true) by (apply (load_fails_iff (e_ctx (st_eng st)) s ow Hp); exact El).
       rewrite Hf. simpl. unfold abs_ok. simpl. auto.
   - (* assert_fact *)
     simpl. unfold abs_ok. simpl. split; [exact Hc|]. split; [|exact Hne].
@@ -119,18 +134,21 @@ Definition spec_run (ops : list op) (sp : sctx * sdb) : sctx * sdb :=
   fold_left (fun sp o => spec_step o sp) ops sp.
 
 Lemma history_simulation fuel ops : forall st sp,
+  forallb plain_op ops = true ->
   abs_ok (st_eng st) sp -> abs_ok (st_eng (exec_ops fuel ops st)) (spec_run ops sp).
 Proof.
-  induction ops as [|o ops IH]; intros st sp H; [exact H|].
-  simpl. apply IH. apply step_simulation. exact H.
+  induction ops as [|o ops IH]; intros st sp Hp H; [exact H|].
+  cbn [forallb] in Hp. apply andb_true_iff in Hp. destruct Hp as [Hp1 Hp2].
+  simpl. apply IH; [exact Hp2|]. apply step_simulation; assumption.
 Qed.
 
 Definition spec_init : sctx * sdb := ((fun _ => []), (fun _ => [])).
 
 Theorem history_refines_spec fuel ops :
+  forallb plain_op ops = true ->
   abs_ok (st_eng (exec_ops fuel ops (mkState empty_engine []))) (spec_run ops spec_init).
 Proof.
-  apply history_simulation. unfold abs_ok, spec_init. simpl.
+  intros Hp. apply history_simulation; [exact Hp|]. unfold abs_ok, spec_init. simpl.
   split; [reflexivity|]. split; [reflexivity | discriminate].
 Qed.
 
@@ -144,6 +162,37 @@ Proof.
   - exfalso. exact (Hne _ E1).
   - reflexivity.
   - reflexivity.
+Qed.
+
+(* A LOAD IS ATOMIC, for every script (whatever it binds: functions, constants, None; deletions;
+   statements that raise half-way; text that does not compile) and in every state: either it
+   raises and the state is the SAME state - nothing of what the script did before it raised is
+   visible -, or it returns and every key is bound as load_val says (all of the script merged). *)
+Theorem load_op_atomic fuel sc ow st :
+  (load (e_ctx (st_eng st)) sc ow = None /\ do_op fuel (OLoad sc ow) st = (otag "raised" [], st)) \/
+  (exists c', load (e_ctx (st_eng st)) sc ow = Some c' /\
+     do_op fuel (OLoad sc ow) st = (otag "ok" [], mkState (mkEngine (e_db (st_eng st)) c') (st_susp st)) /\
+     forall k, ctx_val c' k =
+       match last_eff (s_stmts sc) k with
+       | Some (Some v) =>
+           if same_value (ctx_val (e_ctx (st_eng st)) k) v then ctx_val (e_ctx (st_eng st)) k
+           else if ow then Some v
+           else Some (VChain (old_members (e_ctx (st_eng st)) k ++ members v))
+       | _ => ctx_val (e_ctx (st_eng st)) k
+       end).
+Proof.
+  cbn [do_op]. destruct (load (e_ctx (st_eng st)) sc ow) as [c'|] eqn:El.
+  - right. exists c'. split; [reflexivity|]. split; [reflexivity|]. intros k. apply (load_val _ _ _ _ k El).
+  - left. split; reflexivity.
+Qed.
+
+(* ... so after a load that raised every call resolves as before, and a later load combines with
+   the chains as they were *)
+Theorem raised_load_resolves_as_before fuel sc ow st :
+  fst (do_op fuel (OLoad sc ow) st) = otag "raised" [] -> snd (do_op fuel (OLoad sc ow) st) = st.
+Proof.
+  destruct (load_op_atomic fuel sc ow st) as [[_ H]|[c' [_ [H _]]]]; rewrite H; [reflexivity|].
+  cbn [fst]. intros Hx. vm_compute in Hx. discriminate.
 Qed.
 
 (* the observations of run_ops are made in exactly these states *)
@@ -180,7 +229,7 @@ Lemma do_op_keeps_susp fuel o st i x :
 Proof.
   intros Hl Hn.
   destruct o as [name sty d | sc ow | name vals app | | name n | j | j]; cbn [do_op].
-  - exact Hn.
+  - destruct (register_raises sty d); exact Hn.
   - destruct (load (e_ctx (st_eng st)) sc ow); exact Hn.
   - exact Hn.
   - exact Hn.
